@@ -26,6 +26,8 @@ pub enum Case {
     Prog(crate::props::c04::Case),
     /// definition order of one base type (0) and independent dependants of it (1..)
     TypeDefs(Vec<u8>),
+    /// `wac_graph::plug` on a generated socket and plugs
+    Plug(crate::props::c10::Case),
 }
 
 fn render<E: Diagnostic + Send + Sync + 'static>(e: E, src: &str) -> String {
@@ -108,6 +110,24 @@ pub fn observe(c: &Case) -> String {
             let (text, pkgs) = crate::props::c04::document_and_packages(p);
             observe_text(&text, &pkgs)
         }
+        Case::Plug(c) => match crate::props::c10::materialise(c) {
+            Err(e) => format!("generator:{}", e.lines().next().unwrap_or("")),
+            Ok((socket, plugs)) => {
+                let mut g = wac_graph::CompositionGraph::new();
+                let Ok(sp) = wac_types::Package::from_bytes("socket", None, socket.bytes.clone(), g.types_mut()) else { return "decode-error".into() };
+                let Ok(s) = g.register_package(sp) else { return "register-error".into() };
+                let mut ids = vec![];
+                for (k, p) in plugs.iter().enumerate() {
+                    let Ok(pp) = wac_types::Package::from_bytes(&format!("plug:p{k}"), None, p.bytes.clone(), g.types_mut()) else { return "decode-error".into() };
+                    let Ok(id) = g.register_package(pp) else { return "register-error".into() };
+                    ids.push(id);
+                }
+                match wac_graph::plug(&mut g, ids, s) {
+                    Err(e) => format!("plug-error:{e}"),
+                    Ok(()) => observe_graph(&g),
+                }
+            }
+        },
         Case::TypeDefs(order) => {
             use wac_types::{DefinedType, PrimitiveType, Type, ValueType};
             let mut g = wac_graph::CompositionGraph::new();
@@ -196,6 +216,7 @@ fn nontrivial(c: &Case) -> bool {
         Case::Hist(h) => h.ops.len() >= 4,
         Case::Prog(p) => p.choices.len() >= 10,
         Case::TypeDefs(o) => o.len() >= 3,
+        Case::Plug(c) => c.plugs.len() >= 1,
     }
 }
 
@@ -208,6 +229,7 @@ fn label(c: &Case) -> &'static str {
         Case::Hist(_) => "api-history-with-type-definitions",
         Case::Prog(_) => "semantic-program",
         Case::TypeDefs(_) => "type-definition-order",
+        Case::Plug(_) => "plug",
     }
 }
 
@@ -218,7 +240,7 @@ pub fn run(tier: Tier, seed: u64, replay: Option<&std::path::Path>) -> i32 {
         tier,
         seed,
         "exploration",
-        "cases: graph histories over generated libraries (C01 generator), API histories on the tiny universe that define base types after their dependants (C06 generator), definition orders of one base type and five independent dependants of it, grammar-generated documents, programs of C04's semantic generator with their generated libraries (resolvable documents with spreads, implicit imports, nested instantiations), every repository fixture with its packages, and hand-written documents with several unknown `include ... with` names / many same-rank imports. Each case is observed (Debug of the graph, encode bytes in both dependency modes, serialised tree, printed text, discovered keys, rendered diagnostics) twice in one process and on a clone, and in K fresh worker processes (K=4 quick, 12 thorough; each has its own hash seeds); all SHA-256 digests must be equal. Non-trivial = histories with >= 3 ops, documents with >= 2 statements, fixtures, hand-written cases. Distinct by JSON hash.",
+        "cases: graph histories over generated libraries (C01 generator), API histories on the tiny universe that define base types after their dependants (C06 generator), definition orders of one base type and five independent dependants of it, `plug()` on sockets and plugs of C10's generator, grammar-generated documents, programs of C04's semantic generator with their generated libraries (resolvable documents with spreads, implicit imports, nested instantiations), every repository fixture with its packages, and hand-written documents with several unknown `include ... with` names / many same-rank imports. Each case is observed (Debug of the graph, encode bytes in both dependency modes, serialised tree, printed text, discovered keys, rendered diagnostics) twice in one process and on a clone, and in K fresh worker processes (K=4 quick, 12 thorough; each has its own hash seeds); all SHA-256 digests must be equal. Non-trivial = histories with >= 3 ops, documents with >= 2 statements, fixtures, hand-written cases. Distinct by JSON hash.",
     );
     run.assume("a sample of per-process hash seeds, not all of them");
     if let Some(p) = replay {
@@ -271,6 +293,12 @@ pub fn run(tier: Tier, seed: u64, replay: Option<&std::path::Path>) -> i32 {
     for _ in 0..tier.pick(200, 2_000) {
         if let Ok(t) = ts.new_tree(&mut runner) {
             cases.push(Case::TypeDefs(t.current()));
+        }
+    }
+    let pl = crate::props::c10::case_strategy();
+    for _ in 0..tier.pick(1500, 20_000) {
+        if let Ok(t) = pl.new_tree(&mut runner) {
+            cases.push(Case::Plug(t.current()));
         }
     }
     let ps = crate::props::c04::case_strategy();
